@@ -38,6 +38,19 @@ func (d *ParserCustomData) PrepareCustomDice(p *parser) bool {
 	return true
 }
 
+// CustomDiceAhead reports whether a registered custom syntax claims the current position, without
+// recording anything: the parenthesis shortcut asks it, exprDice then does the real attempt (and is
+// the one that reports a custom parser's error).
+func (d *ParserCustomData) CustomDiceAhead(p *parser) bool {
+	n := len(*p.errs)
+	ok := d.PrepareCustomDice(p)
+	if len(*p.errs) > n {
+		*p.errs = (*p.errs)[:n]
+		return true
+	}
+	return ok
+}
+
 // ConsumeCustomDice advances the parser over the pending match. It is called from a
 // predicate (not an action) so that it also runs inside look-ahead, where actions are skipped.
 func (d *ParserCustomData) ConsumeCustomDice(p *parser) bool {
